@@ -196,6 +196,62 @@ def run(ctx, config='rel-all'):
             else:
                 ctx.violation('R5', 'Box::' + name, name, 'Box::%s must move its value into one arena allocation and hold that pointer' % name, b.get('span'))
     ctx.floor('R5', n5, 6, 'ownership-transfer functions of Box')
+    # ---- R7 while a Box constructor runs user code (the source iterator of from_iter_in, a Clone impl, ...), everything collected
+    # so far has an owner whose destructor runs on unwinding: a collection that is live across such a call is dropped on the
+    # call's unwind path, and is not wrapped in ManuallyDrop / forgotten before the last such call
+    from .. import panicsafe, cfg as cfgmod
+    ps7 = panicsafe.PanicSafety(db)
+    mu7 = ps7.may_user()
+    n7 = 0
+    OWNERS = ('collections::vec::Vec<', 'collections::string::String<')
+    for b in db.fn_bodies():
+        if not (b.get('span') or '').startswith('src/boxed') or b['kind'] == 'closure':
+            continue
+        locs = b.get('locals') or []
+        owners = {i for i, ty in enumerate(locs) if any(ty.startswith(o) for o in OWNERS)}
+        wrapped = {i for i, ty in enumerate(locs) if 'ManuallyDrop<' in ty and any(o in ty for o in OWNERS)}
+        if not owners and not wrapped:
+            continue
+        g = cfgmod.CFG(b, with_unwind=True)
+        gn = db.cfg(b)
+        fn = arena.short(b['id'])
+
+        def user_call(t):
+            if t['k'] != 'call':
+                return None
+            w = ps7.direct_user(t)
+            if w:
+                return w
+            pth = db.callee_path(t)
+            tb = db.by_path.get(pth) if pth else None
+            if tb is not None and tb['id'] in mu7:
+                return 'crate function that may run user code: ' + tb['id'].split('::')[-1]
+            return None
+        # where each owner local is created (destination of a call) and given away (moved into a call)
+        for L in sorted(owners | wrapped):
+            born = [bi for bi in gn.reachable if b['blocks'][bi]['term']['k'] == 'call' and b['blocks'][bi]['term']['dest']['l'] == L and not b['blocks'][bi]['term']['dest']['proj']]
+            if not born:
+                continue
+            gone = {bi for bi in gn.reachable if b['blocks'][bi]['term']['k'] == 'call' and any(a.get('k') == 'move' and a['place']['l'] == L and not a['place']['proj'] for a in b['blocks'][bi]['term']['args'])}
+            for bi in sorted(gn.reachable):
+                t = b['blocks'][bi]['term']
+                why = user_call(t)
+                if not why or bi in gone or bi in born:
+                    continue
+                # the call happens while L is live: after its creation, before it is given away
+                if not any(gn.can_reach(b['blocks'][s]['term']['t'], bi, avoid_blocks=gone) for s in born if b['blocks'][s]['term'].get('t') is not None):
+                    continue
+                n7 += 1
+                u = t.get('unwind')
+                if L in wrapped:
+                    ctx.violation('R7', fn, 'unowned-while-user-code:_%d' % L, '%s runs user code (%s) while the collection it fills is wrapped in ManuallyDrop: if that code panics the elements collected so far are never destroyed' % (fn, why), t.get('span'))
+                    continue
+                dropped = isinstance(u, int) and any(b['blocks'][x]['term']['k'] == 'drop' and b['blocks'][x]['term']['place']['l'] == L and not b['blocks'][x]['term']['place']['proj'] for x in g.reach([u]))
+                if dropped:
+                    ctx.ok('R7', '%s: the collection _%d is dropped on the unwind path of the call that may run user code (%s)' % (fn, L, why), 'drop terminator reachable from the unwind target')
+                else:
+                    ctx.violation('R7', fn, 'no-drop-on-unwind:_%d' % L, '%s runs user code (%s) while holding a collection that is not dropped if that code panics' % (fn, why), t.get('span'))
+    ctx.floor('R7', n7, 1, 'user-code calls made while a Box constructor holds a partly built collection')
     # ---- R6 views: Deref / DerefMut / Borrow / BorrowMut / AsRef / AsMut of a Box give exactly the boxed value
     PT = ('load', ('fld', ('deref', ('param', 1)), 'boxed::Box.0'), 0)
     n6 = 0
